@@ -292,6 +292,51 @@ def override_case(args):
     return out
 
 
+def repo_argument_case(_):
+    """An explicit clusters= argument of a repository replaces the clusters its configuration object names (it does not
+    merge with them); and a cluster dumped once reflects later changes in the next dump."""
+    import twosigma.memento as m
+    from twosigma.memento.runner_null import NullRunnerBackend
+
+    top = scratch_dir("c18r")
+    out = {"evaluations": 2, "states": 2, "transitions": 2, "traces": 2, "violations": [], "outcomes": ["repo-argument", "dump-after-change"]}
+    base_o = {"type": "filesystem", "meta": False, "cache": None, "readonly": None, "runner": None}
+    try:
+        A, B, C = (os.path.join(top, x, "w") for x in "ABC")
+        for d in (A, B, C):
+            os.makedirs(d)
+        hi = m.ConfigurationRepository(config={"name": "hi", "clusters": {"ca": cluster_dict(base_o, A, "ca"), "cb": cluster_dict(base_o, A, "cb")}},
+                                       clusters={"ca": ctor_cluster(base_o, B, "ca")})
+        lo = m.ConfigurationRepository(name="lo", clusters={"cb": ctor_cluster(base_o, C, "cb")})
+        env = m.Environment(name="e", base_dir=top, repos=[hi, lo])
+        for e_, label in ((env, "live"), (m.Environment(config=env.to_dict()), "rebuilt")):
+            got = {n: (None if e_.get_cluster(n) is None else e_.get_cluster(n).storage.to_dict().get("path")) for n in ("ca", "cb", "cz")}
+            want = {"ca": os.path.join(B, "d"), "cb": os.path.join(C, "d"), "cz": None}
+            if got != want:
+                out["violations"].append(("repository|clusters-argument|%s|resolution-differs" % label,
+                                          "repository built from a config naming clusters ca, cb AND an explicit clusters={ca: …}: names resolve to %s, expected %s" % (got, want), {"repo_argument": True}))
+                break
+        # dump, change, dump again
+        D = os.path.join(top, "D", "w")
+        os.makedirs(D)
+        env = build_env(base_o, D, "ctor")
+        env.to_dict()
+        m.Environment.set(env)
+        from ..fixtures import c18fx as fx
+
+        fx.fa(1)  # (a call logs the environment, i.e. dumps it)
+        cl = env.get_cluster("ca")
+        cl.storage.read_only = True
+        cl.runner = NullRunnerBackend()
+        d2 = env.to_dict()
+        cd = d2["repos"][0]["clusters"]["ca"]
+        if not cd["storage"].get("readonly") or cd.get("runner", {}).get("type") != "null":
+            out["violations"].append(("dump|after-change|stale", "after the cluster's store was made read-only and its runner replaced, to_dict() still says %s" % json.dumps(cd)[:300], {"repo_argument": True}))
+    finally:
+        rm(top)
+    return out
+
+
 def priority_case(args):
     """Repository priority: first repository defining the name wins; also after prepend / append."""
     import twosigma.memento as m
@@ -396,6 +441,7 @@ def run(ctx):
                     for names in subsets[1:]:
                         ptasks.append((spec, (op, names)))
     ctx.merge(pmap(priority_case, ptasks, chunksize=8))
+    ctx.merge([repo_argument_case(None)])
     ctx.extra["option_cases"] = len(tasks)
     ctx.extra["priority_cases"] = len(ptasks)
     ctx.sample({"option": [tasks[40][0], tasks[40][1]]})
@@ -406,6 +452,8 @@ def replay(ctx, art):
     a = art["artefact"]
     if "option" in a:
         r = option_case((a["option"][0], a["option"][1]))
+    elif "repo_argument" in a:
+        r = repo_argument_case(None)
     elif "override" in a:
         r = override_case(a["override"])
     else:
